@@ -385,6 +385,14 @@ class Ctx:
     def prove(self, module, theorems, extra_targets=()):
         """lake build the property module, audit tokens + axioms.  Records obligations.
         Returns True iff everything is discharged."""
+        try:
+            from . import translate
+            translate.generate_all()           # Generated/*.lean always reflect /repo's working tree
+        except Exception as e:                 # the source no longer has the shape the translator reads
+            for t in theorems:
+                self.obligations.append((t, False))
+            self.proof_broken(module, "translator failed: %s" % e, repr(e))
+            return False
         ok, out = lake_build([module, "zwmodel"] + list(extra_targets))
         self.cov["checker_cmd"] = ("cd /verif/lean && lake build %s zwmodel && lake env lean <#print axioms of "
                                    "each property theorem>; grep audit for sorry/admit/axiom/native_decide/"
